@@ -64,7 +64,7 @@ pub fn generate(opts: &Opts, sink: &mut CaseSink) {
         (1, vec![E::Terminate]),
     ];
     emit(sink, 2, ok, "corpus");
-    let n_random = if opts.thorough { 12000 } else { 1200 };
+    let n_random = (if opts.thorough { 12000 } else { 1200 }) / opts.scale;
     for _ in 0..n_random {
         let (n, arr, sync) = random_case(&mut rng, 5);
         emit(sink, n, arr, if sync { "random_round_sync" } else { "random_unsynchronised" });
